@@ -1,6 +1,6 @@
 CHECK = dict(
     level="fault_enumeration",
-    level_text="Fault-sequence enumeration and generated-history search against the real billstat.RuntimeRecorder with a scripted uploader: every success/failure pattern of up to six consecutive upload attempts is enumerated with a fixed set of record placements (before the upload and re-entrantly while it is in flight); rapid draws longer patterns, more devices, random and near-miss metadata (one field changed, unknown location, device IDs differing in case only), Record and Refresh calls with cancelled / expired / cancelled-in-flight contexts, and rare overlapping refreshes. After every real call the per-device equation delivered + pending (+ in flight) = recorded and the last-writer metadata of every pending/uploaded record are compared with an explicit model. A -race variant samples real goroutine schedules and checks the same at quiescence. A second unit drives the real backendpb.BillStat uploader over a scripted gRPC client stream (open/send/close faults incl. Send reporting io.EOF with the status deferred to CloseAndRecv, done and cancelled-mid-stream contexts). Held on N histories is evidence, not proof; exhaustive only for the stated placement sets.",
+    level_text="Fault-sequence enumeration and generated-history search against the real billstat.RuntimeRecorder with a scripted uploader: every success/failure pattern of up to six consecutive upload attempts is enumerated with a fixed set of record placements (before the upload and re-entrantly while it is in flight); rapid draws longer patterns, more devices, random and near-miss metadata (one field changed, unknown location, device IDs differing in case only), Record and Refresh calls with cancelled / expired / cancelled-in-flight contexts, and rare overlapping refreshes. After every real call the per-device equation delivered + pending (+ in flight) = recorded and the last-writer metadata of every pending/uploaded record are compared with an explicit model. A -race variant samples real goroutine schedules and checks the same at quiescence. A second unit drives the real backendpb.BillStat uploader over a scripted gRPC client stream (open/send/close faults incl. Send reporting io.EOF with the status deferred to CloseAndRecv, done and cancelled-mid-stream contexts). A further part runs the same recorder and uploader with the real grpc-go client against an in-process gRPC server on loopback whose treatment of each upload is drawn (ack with Empty, OK without a response message, status error before/in the middle of/after reading, partial read then OK, silence until the client deadline, commit then answer too late, caller cancels mid-stream, connection dropped before/mid/after commit); there the server's own commit record (RPC finished with OK from the server's side) is the oracle's 'delivered'. Held on N histories is evidence, not proof; exhaustive only for the stated placement sets.",
     level_note="The in-flight race is modelled by records made from inside Uploader.Upload (deterministic) and sampled with real goroutines; 'delivered' means the uploader returned nil (a failed stream is assumed to be discarded by the backend as a whole). Timestamps are strictly increasing in call order so 'most recent query' is unambiguous.",
     technique="property-based testing (rapid): bounded-exhaustive S/F fault patterns + stateful histories with a re-entrant scripted uploader vs a counting/last-writer model; concurrent variant under -race",
     assumptions=[
@@ -8,6 +8,7 @@ CHECK = dict(
         "Refresh calls do not overlap for the metadata clause (one refresh worker); overlapping refreshes are exercised for conservation and for untorn metadata only",
         "timestamps passed to Record are strictly increasing per device in call order (call order and time order agree)",
         "counts stay far below the int32 range of Record.Queries",
+        "grpc part: an upload is delivered iff the server finished the RPC with OK from its side; when the server commits but the client cannot learn it (deadline passed, connection dropped, partial read answered OK and the client noticed) only 'nothing lost' is judged for that batch, a repeated delivery of exactly that batch is not judged; records are made between refreshes only",
         "cmd unit: as the C14 cmd unit; a refresh 'as the worker runs it' is rec.Refresh with a context from the registered worker's own constructor; the worker's period is read out of the runtime timer behind its time.Ticker at an offset validated on tickers of known periods (inconclusive if that fails)",
     ],
     units=[
@@ -18,6 +19,7 @@ CHECK = dict(
         ]),
         dict(name="backendpb", dir="internal/backendpb", src="C16/backendpb", runs=[
             dict(name="wire", run="^TestVerifC16Wire$", quick=20000, thorough=800000, shards_thorough=4),
+            dict(name="grpc", run="^TestVerifC16GRPC$", quick=1500, thorough=40000, shards_thorough=4),
         ]),
         dict(name="cmd", dir="internal/cmd", src="C16/cmd", runs=[
             dict(name="billstat-config", run="^TestVerifC16CmdBackend$", quick=300, thorough=12000, shards_quick=2, shards_thorough=6),
